@@ -49,9 +49,13 @@ func Mutate(r *mon.Rand, s string, saddrs []string) string {
 				b[r.Intn(len(b))] ^= byte(1 << r.Intn(8))
 			}
 			s = string(b)
-		case 1: // truncate
+		case 1: // truncate (right, sometimes left)
 			if len(b) > 0 {
-				s = string(b[:r.Intn(len(b))])
+				if r.Chance(1, 4) {
+					s = string(b[r.Intn(len(b)):])
+				} else {
+					s = string(b[:r.Intn(len(b))])
+				}
 			}
 		case 2: // delete a token
 			toks := strings.Split(s, " ")
